@@ -93,8 +93,20 @@ func (g *Gen) instr(st *BState, b *ssa.BasicBlock, in ssa.Instruction) {
 	case *ssa.Next:
 		g.doNext(st, in)
 	case *ssa.Defer:
-		g.fatalf("defer not supported")
+		if in.Call.StaticCallee() == nil || in.Call.IsInvoke() {
+			g.fatalf("defer of a dynamic call not supported")
+			return
+		}
+		if b.Index != 0 && !g.dominatesAllRunDefers(b) {
+			g.fatalf("conditional defer not supported")
+			return
+		}
+		g.defers = append(g.defers, in)
 	case *ssa.RunDefers:
+		for i := len(g.defers) - 1; i >= 0; i-- {
+			d := g.defers[i]
+			g.callStatic(st, d, d.Call.StaticCallee(), d.Call.Args, nil, "true")
+		}
 	case *ssa.Field:
 		g.imprecise = append(g.imprecise, "struct value field read havocked: "+in.String())
 		g.havocVal(in)
@@ -158,6 +170,7 @@ func (g *Gen) doAlloc(st *BState, in *ssa.Alloc) {
 	g.allocs[in] = true
 	switch u := t.Underlying().(type) {
 	case *types.Struct:
+		g.assume(st, fmt.Sprintf("(= (rtype %s) %d)", n, g.eng.typeTag(t)))
 		g.zeroInitStruct(st, n, t)
 	case *types.Array:
 		// backing array in the elem region
@@ -172,6 +185,17 @@ func (g *Gen) doAlloc(st *BState, in *ssa.Alloc) {
 			g.assume(st, fmt.Sprintf("(= (select %s %s) %s)", g.heapGet(st.heap, r), n, zeroOf(t)))
 		}
 	}
+}
+
+func (g *Gen) dominatesAllRunDefers(b *ssa.BasicBlock) bool {
+	for _, x := range g.fn.Blocks {
+		for _, in := range x.Instrs {
+			if _, ok := in.(*ssa.RunDefers); ok && !b.Dominates(x) {
+				return false
+			}
+		}
+	}
+	return true
 }
 
 func (g *Gen) isFreshRef(v ssa.Value) bool {
